@@ -458,6 +458,27 @@ fn create_member_preceding_comment_docs(
   }
 }
 
+/// The links of a dotted chain below the outermost one are flattened into the chain, so nothing
+/// else prints the comments attached to them (`/* c */ (a.b).c` attaches `c` to `a.b`).
+fn with_inner_chain_comments(
+  heap: &Heap,
+  comment_store: &CommentStore,
+  inner: &expr::E<()>,
+  base: Document,
+) -> Document {
+  match inner {
+    expr::E::FieldAccess(_) | expr::E::MethodAccess(_) | expr::E::Call(_) => {
+      create_opt_preceding_comment_doc(
+        heap,
+        comment_store,
+        inner.common().associated_comments,
+        base,
+      )
+    }
+    _ => base,
+  }
+}
+
 fn create_chainable_ir_docs(
   heap: &Heap,
   comment_store: &CommentStore,
@@ -468,6 +489,7 @@ fn create_chainable_ir_docs(
     expr::E::FieldAccess(e) => {
       let (base, mut chain) =
         create_chainable_ir_docs(heap, comment_store, potential_chainable_expr, &e.object);
+      let base = with_inner_chain_comments(heap, comment_store, &e.object, base);
       chain.push((
         e.field_name.associated_comments,
         vec![
@@ -480,6 +502,7 @@ fn create_chainable_ir_docs(
     expr::E::MethodAccess(e) => {
       let (base, mut chain) =
         create_chainable_ir_docs(heap, comment_store, potential_chainable_expr, &e.object);
+      let base = with_inner_chain_comments(heap, comment_store, &e.object, base);
       chain.push((
         e.method_name.associated_comments,
         vec![
@@ -492,8 +515,9 @@ fn create_chainable_ir_docs(
     expr::E::Call(e) => {
       let args_doc =
         create_doc_for_parenthesized_expression_list(heap, comment_store, &e.arguments);
-      let (mut base, mut chain) =
+      let (base, mut chain) =
         create_chainable_ir_docs(heap, comment_store, expression, &e.callee);
+      let mut base = with_inner_chain_comments(heap, comment_store, &e.callee, base);
       if let Some((_, last_docs)) = chain.last_mut() {
         last_docs.push(args_doc);
       } else {
